@@ -134,7 +134,7 @@ def main():
                         run.violation("td:input-mutated", "rejection modified the samples of a window", dict(kind="td", case=case))
 
     # ---- histories: the TdReject action of the HvsrObject state machine on real objects ----------
-    for na, rng_, k in ((1, "Ranges6", 40 if quick else 8), (2, "Ranges6s", 15000 if quick else 2000)):
+    for na, rng_, k in ((1, "Ranges6", 40 if quick else 8), (2, "Ranges6s", 15000 if quick else 3000)):
         ex = hvsrobj.cfg_text(na, 3, 6, "Alpha6a", rng_, "NSetA", "MaxItsA", "InitEnv", export=True, props=["TdStep"])
         res, graph = hvsrobj.export_graph(ex, f"C13-export{na}", {"VERIF_K": k, "VERIF_SEED": run.seed}, timeout=3000)
         run.add_tlc(res, f"HvsrObject NA={na}: TdStep (both masks = selection on every azimuth) + export")
